@@ -3,14 +3,14 @@ CONSTANTS
   Protos = {10, 11}
   Methods = {"GET", "HEAD"}
   Conns = {"none", "keepalive", "close"}
-  Statuses = {200, 201, 204, 304, 404, 500}
-  Bodies = {"none", "empty", "str", "bytes", "list", "big", "gen", "genWithEmpty", "genEmptyMid", "genAllEmpty", "genBig", "file", "trickle", "stream", "yield", "error"}
+  Statuses = {200, 201, 203, 204, 205, 206, 300, 304, 404, 500}
+  Bodies = {"none", "empty", "str", "bytes", "list", "big", "gen", "genWithEmpty", "genEmptyMid", "genAllEmpty", "genBig", "file", "fileCL", "trickle", "stream", "yield", "error"}
   Flags = {TRUE, FALSE}
   Spells = {"canon", "title", "upper", "list"}
   Wins = {0, 1, 4000}
   SeqConns = {"none", "keepalive", "close"}
-  SeqStatuses = {200, 201, 204, 304, 404, 500}
-  SeqBodies = {"none", "empty", "str", "bytes", "list", "big", "gen", "genWithEmpty", "genEmptyMid", "genAllEmpty", "genBig", "file", "trickle", "stream", "yield", "error"}
+  SeqStatuses = {200, 201, 203, 204, 205, 206, 300, 304, 404, 500}
+  SeqBodies = {"none", "empty", "str", "bytes", "list", "big", "gen", "genWithEmpty", "genEmptyMid", "genAllEmpty", "genBig", "file", "fileCL", "trickle", "stream", "yield", "error"}
   SeqSpells = {"canon", "title", "upper", "list"}
   MaxReq = 3
   DefectChoices = {{}}
